@@ -9,7 +9,7 @@
    sets in harness area simprops. *)
 From Coq Require Import ZArith List Bool.
 From Model Require Import Bits Word Instr Sim.
-From Proofs Require Import SimAccess SimObs IrqProofs SimStepObs SimObsEntry.
+From Proofs Require Import SimAccess SimObs IrqProofs SimStepObs SimObsEntry SimStepObs2.
 Import ListNotations.
 Open Scope Z_scope.
 
@@ -200,6 +200,30 @@ Theorem C28_step_sti : forall e s s' u s1 w sr off, Completed e s s' u s1 w (SST
              if word_eqb (mget (s_mem s) ea) (rget (s_regs s) sr) then o else obs_update o ea OBS_MODIFIED.
 Proof. exact step_obs_sti. Qed.
 Print Assumptions C28_step_sti.
+Theorem C28_step_rti : forall e s s' u s1 w, Completed e s s' u s1 w SRTI ->
+  let sp := w_data (rget (s_regs s) 6) in
+  s_obs s' = obs_update (obs_update [(s_pc s, OBS_READ)] sp OBS_READ) (wrap16 (sp + 1)) OBS_READ.
+Proof. exact step_obs_rti. Qed.
+Print Assumptions C28_step_rti.
+(* a TRAP that enters the OS (real traps, or a vector without virtual short-cut): fetch, two pushes, vector read *)
+Theorem C28_step_trap : forall e s s' u s1 w v, Completed e s s' u s1 w (STRAP v) ->
+  List.length (s_regs s) = 8%nat -> (IO_START <=? s_pc s) = false ->
+  let a1 := wrap16 (entry_sp s - 1) in let a2 := wrap16 (entry_sp s - 2) in
+  (IO_START <=? a1) = false -> (IO_START <=? a2) = false -> (IO_START <=? v) = false ->
+  s_obs s' = obs_update (wmark (wmark [(s_pc s, OBS_READ)] a1 (mget (s_mem s) a1) (new_init (s_psr s)))
+                                a2 (mget (s_mem s) a2) (new_init (wrap16 (s_pc s + 1)))) v OBS_READ.
+Proof. exact step_obs_trap. Qed.
+Print Assumptions C28_step_trap.
+(* a step that takes an interrupt: nothing is fetched; the observer holds exactly the entry's marks *)
+Theorem C28_step_interrupt : forall e s s' u v p,
+  List.length (s_regs s) = 8%nat -> takes_irq e s v p ->
+  step_inner e (upd_obs s []) = (s', inl u) ->
+  let a1 := wrap16 (entry_sp s - 1) in let a2 := wrap16 (entry_sp s - 2) in
+  (IO_START <=? a1) = false -> (IO_START <=? a2) = false -> (IO_START <=? 256 + v) = false ->
+  s_obs s' = obs_update (wmark (wmark [] a1 (mget (s_mem s) a1) (new_init (s_psr s)))
+                                a2 (mget (s_mem s) a2) (new_init (s_pc s))) (256 + v) OBS_READ.
+Proof. exact step_obs_interrupt. Qed.
+Print Assumptions C28_step_interrupt.
 (* non-vacuity of the step theorems: a user-mode machine that executes `ST R0, #1` at x3000 with R0 = 5
    over a zero word takes no interrupt, completes the step, and ends with exactly READ at x3000 and
    WRITTEN+MODIFIED at x3002 *)
